@@ -56,6 +56,8 @@ type vfWorldCfg struct {
 	RateLimit  int          `json:"rate_limit"`
 	// "" : the provider advertises no revocation endpoint; "ok" / "fail": it does, and answers 200 / 503
 	Revocation string `json:"revocation,omitempty"`
+	// X-Forwarded-Proto carried by every request of this world that does not set its own ("" = none)
+	ClientProto string `json:"client_proto,omitempty"`
 }
 
 const (
@@ -127,6 +129,7 @@ type vfBrowser struct {
 	prevAuth map[string]string // the one before (a stale initiation)
 	code     string
 	usedCode string
+	said     []string // every string this browser's user supplied in earlier requests (target parts, headers): C16 scans bodies for them
 }
 
 // ---- interning
@@ -646,11 +649,12 @@ type vfObserved struct {
 	Panic    interface{}
 }
 
-// vfWireSafe: printable ASCII without the bytes a request line cannot carry or that every client escapes
+// vfWireSafe: printable ASCII without the bytes a request line cannot carry (a browser would escape more:
+// quotes, angle brackets ...; a hand-made client need not, and net/http accepts them raw)
 func vfWireSafe(t string) bool {
 	for i := 0; i < len(t); i++ {
 		c := t[i]
-		if c <= 0x20 || c >= 0x7f || strings.IndexByte("\"<>`{}|^#", c) >= 0 {
+		if c <= 0x20 || c >= 0x7f || c == '#' {
 			return false
 		}
 	}
@@ -701,6 +705,9 @@ func (w *vfWorld) do(rq vfReq) *vfObserved {
 	}
 	if rq.Origin != "" {
 		req.Header.Set("Origin", rq.Origin)
+	}
+	if rq.XFProto == "" {
+		rq.XFProto = w.cfg.ClientProto
 	}
 	if rq.XFProto != "" {
 		req.Header.Set("X-Forwarded-Proto", rq.XFProto)
@@ -1081,6 +1088,7 @@ func (w *vfWorld) setCookiesTerm(o *vfObserved) string {
 }
 
 func (w *vfWorld) record(rq vfReq, in *vfInstance, req *http.Request, jar map[string]string, now int64, o *vfObserved) {
+	b := w.browsers[rq.Browser]
 	q := req.URL.Query()
 	// random values drawn by this step: read from the response's main cookie (last one wins)
 	csrf, nonce, verifier := uint64(0), uint64(0), uint64(0)
@@ -1114,7 +1122,12 @@ func (w *vfWorld) record(rq vfReq, in *vfInstance, req *http.Request, jar map[st
 		status = 999
 	}
 	obsTerm := fmt.Sprintf("(mkResp %d %s %s %s %s %s %s %s)", status, w.locationTerm(o, req), w.setCookiesTerm(o),
-		w.bodyTerm(o, req), w.fwdTerm(rq, o), vfBool(o.CORS), w.callsTerm(o), w.flagsTerm(req, jar, o))
+		w.bodyTerm(o, req), w.fwdTerm(rq, o), vfBool(o.CORS), w.callsTerm(o), w.flagsTerm(req, jar, o, b.said))
+	for _, d := range w.clientStrings(req, nil) {
+		if len(d) >= 3 && vfHasMarkup(d) && len(b.said) < 400 {
+			b.said = append(b.said, d)
+		}
+	}
 	step := fmt.Sprintf("(mkStep %d %d %s %s (%d, %d, %d) %s %s %d)", in.idx, rq.Browser, vfZ(now), rqTerm,
 		csrf, nonce, verifier, w.answerTerm(o), obsTerm, rq.Tag)
 	w.steps = append(w.steps, step)
@@ -1233,13 +1246,13 @@ func vfKeylessViews(value string) [][]byte {
 	return views
 }
 
-func (w *vfWorld) flagsTerm(req *http.Request, jar map[string]string, o *vfObserved) string {
+func (w *vfWorld) flagsTerm(req *http.Request, jar map[string]string, o *vfObserved, said []string) string {
 	flags := map[int]bool{}
 	ct := o.CType
 	if !o.Down && o.Body != "" {
 		switch {
 		case strings.HasPrefix(ct, "text/html"):
-			for _, d := range w.clientStrings(req, jar) {
+			for _, d := range append(w.clientStrings(req, jar), said...) {
 				if len(d) >= 3 && vfHasMarkup(d) && strings.Contains(o.Body, d) {
 					flags[1] = true
 				}
